@@ -141,7 +141,8 @@ COMPOSITE_LIKE = COMPOSITE_OPS + ('as_completed',)     # operations that may acq
 
 
 def install_as_completed_probes(courier_worker, courier_utils, orchestrate, pools, workers, alog, kinds, released_busy=None):
-  """Family 'scheda' (round 6): orchestrate.as_completed under the scheduler as an OBSERVED SCRIPT of primitive operations.
+  """Family 'scheda' (round 6; since round 11 the log only supplies the ENVIRONMENT'S CHOICES to the Lean program of as_completed, see
+  model_threads): orchestrate.as_completed under the scheduler with its pool-level calls logged.
   Every pool-level call made by the body of as_completed itself (`pool.workers`, `next_idle_worker`, `release_all`,
   `acquired_workers`, `task.is_alive`, `worker.submit`) is logged with its arguments (set iteration orders, shuffles and
   samples included) and preceded by a marker yield 'pstart' — the 'start' step of a primitive operation of the LTS; the
